@@ -36,6 +36,9 @@ def gen_batch(r, bi, services=False, can=False, n_random=(6, 9), out_of_order=Tr
     # large field ids, two of them equal in their low 16 bits, declared out of id order
     add(p + "BigId", [("hi", 65536 + 7, ("u", 12)), ("lo", 7, ("u", 5)), ("top", (1 << 31) + 3, ("i", 9)), ("mid", 70000, ("u", 16))] if out_of_order
         else [("lo", 7, ("u", 5)), ("hi", 65536 + 7, ("u", 12)), ("mid", 70000, ("u", 16)), ("top", (1 << 31) + 3, ("i", 9))])
+    # declared structs whose NAMES look like the rpc wrappers the generator synthesizes (<X>Input / <X>Output)
+    add(p + "PedalInput", [("pos", 0, ("u", 10)), ("brake", 1, ("u", 1))])
+    add(p + "StatusOutput", [("code", 0, ("i", 7)), ("inner", 1, ("struct", p + "PedalInput"))])
     add(p + "Nest", [("x", 0, ("u", 2)), ("n", 1, ("struct", p + "In")), ("m", 2, ("arr", ("struct", p + "In"), 2)), ("y", 3, ("i", 9))])
     add(p + "Cont", [
         ("a", 0, ("arr", ("u", r.choice([3, 8, 12])), 3)),
